@@ -40,6 +40,8 @@ class Beh(base.Behaviour):
         self.mh = mh
 
     def connect(self, sid, environ):
+        if environ.get('HTTP_X_REJECT') == 'type':
+            return [('raise_type',)]          # an application bug of the TypeError kind: still a rejection
         if environ.get('HTTP_X_REJECT'):
             return [('return', False)]
         return []
@@ -102,8 +104,9 @@ class Events(core.Scenario):
         self.ws = None
         if p.get('reject_first'):
             # the very first connection attempt this server sees is rejected by the application
-            w.http('GET', peer.BASEQ, headers={'X-Reject': '1'})
+            w.http('GET', peer.BASEQ, headers={'X-Reject': '1' if p['reject_first'] is True else p['reject_first']})
             w.run()
+            self.rejected_sid = ([e[1] for e in w.events if e[0] == 'connect'] or [None])[0]
         if tr == 'ws_only':
             self.ws = peer.ws_open(w)
             self.A = [e[1] for e in w.events if e[0] == 'connect'][-1]
@@ -250,6 +253,16 @@ class Events(core.Scenario):
                 # (a disconnect() that never returns is C15's subject; here: it returned, so it has ended every session)
                 self.flag('other_session_not_disconnected', 'disconnect call(s) returned, bystander was to be ended by the server at t=0; '
                           'its disconnect event: %r' % (evBd[0][:4],), trigger=trig)
+        rs = getattr(self, 'rejected_sid', None)
+        if rs is not None:
+            # the id the rejected connect handler saw: traffic naming it produces nothing, ever
+            peer.post(w, rs, '4to-rejected')
+            peer.poll(w, rs)
+            w.run_until(w.now + 0.01)
+            evr = [e for e in w.events if e[1] == rs]
+            if [e[0] for e in evr] != ['connect'] or rs in w.table_sids():
+                self.flag('event_for_rejected_session', 'events for the rejected id: %r (still in the table: %s)'
+                          % ([e[:3] for e in evr], rs in w.table_sids()), trigger=trig)
         for name, c in self.api_calls:
             if c.exc:
                 self.flag('disconnect_call_raised', '%s raised %s at %s - sessions it had not reached yet are left open'
@@ -302,6 +315,7 @@ def param_list(ctx):
                 ps.append({'impl': impl, 'transport': tr, 'causes': cs, 'dh': 'send_stale', 'bystander_first': True})
             ps.append({'impl': impl, 'transport': tr, 'causes': ['silence'], 'dh': 'record', 'reject_first': True})
             ps.append({'impl': impl, 'transport': tr, 'causes': [causes[0]], 'dh': 'record', 'reject_first': True})
+            ps.append({'impl': impl, 'transport': tr, 'causes': [causes[0]], 'dh': 'record', 'reject_first': 'type'})
             # a MESSAGE that may be delivered while the disconnect handler of another cause is suspended
             racer = 'post_msg' if tr == 'polling' else 'frame_msg'
             for c0 in (causes[0], 'api_disc'):
